@@ -250,7 +250,7 @@ PROPS = {
     ),
     "C15": dict(
         runs=[("refs", "", "refsrun", 64, 1500, 0), ("owners", "", "ownersrun", 34, 340, 0)],
-        corr={"model:owner-events", "model:owner-files", "driver-error", "harness-error"}, corr_held=False,
+        corr={"model:owner-events", "model:owner-files", "model:owner-illegal-step", "driver-error", "harness-error"}, corr_held=False,
         spec={"spec:ref-count-jump", "spec:ref-use-after-release", "spec:ref-leak", "spec:handle-changed",
               "spec:leaked-fd", "spec:leaked-mapping", "spec:stale-files", "spec:stale-files-after-file-switch"}, spec_held=False,
         rule="8-19 steps per case over a store-backed collection (child collections in half of the cases, leveled and "
